@@ -128,7 +128,16 @@ ParamSpec paramSpecOf(const Op &op) {
     s.count = count;
     if (s.type == 0) for (size_t i = 0; i < count; ++i) s.ints.push_back(static_cast<int>(r.below(65536)) - 32768);
     else if (s.type == 1) for (size_t i = 0; i < count; ++i) s.floats.push_back(genFloatBits(r));
-    else if (s.type == 2) for (size_t i = 0; i < count; ++i) s.strs.push_back(genText(r, r.below(4) == 0 ? 0 : r.below(24)));
+    else if (s.type == 2) {
+        // mostly short strings; sometimes one long entry (up to 255) so that the others are padded by more than 127 blanks
+        const bool longOne = count >= 1 && count <= 40 && r.below(6) == 0;
+        const size_t longIdx = longOne ? r.below(count) : 0;
+        static const size_t longLens[] = {127, 128, 129, 160, 200, 254, 255};
+        for (size_t i = 0; i < count; ++i) {
+            if (longOne && i == longIdx) s.strs.push_back(genText(r, longLens[r.below(7)]));
+            else s.strs.push_back(genText(r, r.below(4) == 0 ? 0 : r.below(24)));
+        }
+    }
     return s;
 }
 
@@ -406,7 +415,7 @@ Outcome Interp::exec(const Op &op) {
             }
             long long nb = op.arg(0) < 0 ? -op.arg(0) : op.arg(0);
             size_t ncols = static_cast<size_t>(1 + (op.arg(1) < 0 ? -op.arg(1) : op.arg(1)) % 3);
-            long long dev = (op.arg(2) < 0 ? -op.arg(2) : op.arg(2)) % 11;
+            long long dev = (op.arg(2) < 0 ? -op.arg(2) : op.arg(2)) % 12;     // 11: (acol) a later sub-frame of the last frame is one column short
             Rng r(static_cast<uint64_t>(op.arg(3)));
             std::vector<std::string> names;
             for (size_t j = 0; j < ncols; ++j) names.push_back(isP ? pointNameOf(500 + nb + static_cast<long long>(j)) : channelNameOf(500 + nb + static_cast<long long>(j)));
@@ -441,7 +450,9 @@ Outcome Interp::exec(const Op &op) {
                         ezc3d::DataNS::AnalogsNS::Analogs an;
                         for (size_t sfi = 0; sfi < nSub; ++sfi) {
                             ezc3d::DataNS::AnalogsNS::SubFrame sf;
-                            for (size_t j = 0; j < cols; ++j) { ezc3d::DataNS::AnalogsNS::Channel ch; ch.name(names[j]); ch.data(bitsToFloat(genFloatBits(r))); sf.channel(ch); }
+                            size_t colsHere = cols;
+                            if (dev == 11 && nF >= 1 && f == nF - 1 && nSub >= 2 && sfi == nSub - 1 && cols >= 1) { colsHere = cols - 1; out.note = "ragged"; }
+                            for (size_t j = 0; j < colsHere; ++j) { ezc3d::DataNS::AnalogsNS::Channel ch; ch.name(names[j]); ch.data(bitsToFloat(genFloatBits(r))); sf.channel(ch); }
                             an.subframe(sf);
                         }
                         fr.add(an);
